@@ -138,7 +138,7 @@ func split(r *rand.Rand, n, waves, lo int) []int {
 func (o GenOpts) count(r *rand.Rand) int { return o.MinMsgs + r.Intn(o.MaxMsgs-o.MinMsgs+1) }
 
 func tail(r *rand.Rand, sc *cluster.Scenario, o GenOpts) {
-	for len(sc.Script) < o.MaxScript && r.Intn(3) > 0 {
+	for want := r.Intn(o.MaxScript + 1); len(sc.Script) < want; {
 		sc.Script = append(sc.Script, randFault(r))
 	}
 }
